@@ -395,7 +395,7 @@ func mutate(r *rand.Rand, root *J) string {
 
 type reason struct {
 	What  string
-	Class string // "" = must be rejected; "F6b" / "F6c" = known finding classes
+	Class string // "" = must be rejected; "F6b" = known finding class
 }
 
 var intLike = regexp.MustCompile(`^[+-]?[0-9]+$`)
@@ -470,7 +470,7 @@ func checkPoint(v *J, name string, rs *[]reason) {
 	}
 	nums := 0
 	for _, e := range v.A {
-		if e.Kind != jNum && e.Kind != jNull {
+		if e.Kind != jNum {
 			*rs = append(*rs, reason{name + " has a non-number element", ""})
 			return
 		}
@@ -483,7 +483,7 @@ func checkPoint(v *J, name string, rs *[]reason) {
 		nums++
 	}
 	if len(v.A) != 2 {
-		*rs = append(*rs, reason{fmt.Sprintf("%s has %d elements instead of 2", name, len(v.A)), "F6c"})
+		*rs = append(*rs, reason{fmt.Sprintf("%s has %d elements instead of 2 (regression F6c)", name, len(v.A)), ""})
 	}
 }
 
@@ -794,19 +794,15 @@ func c16Oracle(c *violations, name string, muts []string, tree *J, doc []byte, o
 	rs := malformed(tree)
 	// never a panic
 	if o.res.Kind == "panic" || o.encK == "panic" {
-		kf := ""
-		if hasLongPoint(tree) && strings.Contains(o.res.Msg, "array index out of range") {
-			kf = "F6c"
-		}
 		msg := o.res.Msg
 		if o.encK == "panic" {
 			msg = "while encoding: " + o.encM
 		}
 		what := "decoding / encoding a tile matrix set document panics"
-		if kf == "F6c" {
-			what = "a pointOfOrigin / lowerLeft / upperRight array with more than 2 elements panics inside the decoding library (F6c)"
+		if hasLongPoint(tree) {
+			what += " (a point array with more than 2 elements: regression of F6c?)"
 		}
-		c.add(hc.Violation{What: what, KnownFinding: kf, Input: in, Observed: "panic: " + msg, Expected: "an error"})
+		c.add(hc.Violation{What: what, Input: in, Observed: "panic: " + msg, Expected: "an error"})
 		return
 	}
 	if o.res.Kind == "error" {
@@ -827,8 +823,6 @@ func c16Oracle(c *violations, name string, muts []string, tree *J, doc []byte, o
 		switch kf {
 		case "F6b":
 			what = "a negative, fractional or oversized value of an unsigned integer member is accepted (wrapped / truncated) instead of rejected (F6b)"
-		case "F6c":
-			what = "a pointOfOrigin / lowerLeft / upperRight array with fewer than 2 elements is accepted, missing coordinates read as 0 (F6c)"
 		}
 		var all []string
 		for _, r := range rs {
@@ -893,13 +887,13 @@ func runC16(c *hc.Ctx) error {
 	var buf bufferedCases
 	c.Sum.Rule = "documents = the built-in documents (whole, unmutated), and their 3-matrix prefixes, the test document and 4 synthetic documents covering every optional member and the 3 CRS forms, each with 1-3 structural mutations (delete member / array element, change type, change value from pools of boundary numbers and strings, insert / duplicate array element, duplicate key, add or replace a CRS form, add a member) plus the systematic single replacement of every member of the kitchen-sink document by every pool value; distinct = distinct document text; non-trivial = mutated and (decodes, or fails for a reason other than a missing crs/tileMatrices)"
 	c.Sum.Oracle = "on the implementation (json.Unmarshal / json.Marshal of tms20.TileMatrixSet, panics recovered): never a panic; a document that an independent schema check (types, presence, positive integer sizes, 2-element points, integer-like ids, a CRS in one of three forms) calls malformed is rejected with an error; an accepted document d satisfies decode(encode(decode d)) = decode d (reflect.DeepEqual with nil and empty slices identified) and encode is byte-stable; built-in documents re-encode semantically equal (keys unordered, numbers by float64 value) to the original"
-	c.Sum.Partial = "decode_encode_decode carries the hypothesis that unsigned members survive printing and reading (tms_stable; implied by all sizes < 2^53; violated only through F6b); decode_total and nonpositive_rejected hold in the _partial form stated (no point array longer than 2; zero / truncating-to-zero sizes and non-positive cell sizes), their full forms are refuted by C16_refuted_* (F6b, F6c); values are compared with nil and empty slices identified (norm_tms)"
+	c.Sum.Partial = "decode_encode_decode carries the hypothesis that unsigned members survive printing and reading (tms_stable; implied by all sizes < 2^53; violated only through F6b); nonpositive_rejected holds in the _partial form stated (zero / truncating-to-zero sizes and non-positive cell sizes), its full form is refuted by C16_refuted_* (F6b); decode_total is unconditional since the repair of F6c; values are compared with nil and empty slices identified (norm_tms)"
 	c.Sum.TrustedBase = []string{
 		"text -> tree: encoding/json syntax check and easyjson lexer (the model starts from the JSON tree; strings are byte strings, valid UTF-8 only)",
 		"strconv.ParseFloat is correctly rounded and strconv's shortest formatting round-trips (model: numbers kept as the decimals of the document, compared by their binary64 image f64)",
 		"marshmallow v1.1.5 coercions observed on the real code: JSON null leaves a member at its zero value; a number for a uint member is converted with Go's float64->uint conversion (truncation toward zero; negative values wrap modulo 2^64, -1<x<0 gives 0; values >= 2^64 or < -2^63 give 2^63 on amd64); no integrality or sign check",
-		"marshmallow: a [2]float64 member is filled with reflect Index(i): fewer than 2 elements leave zeros, a non-null element at index >= 2 panics, null elements are skipped, a non-number element records an error",
-		"marshmallow: a wrong JSON type for a primitive / slice / array / struct member stops population with an error (map order is random: error-or-panic when a struct has both a wrong type and a long point); an invalid element inside a slice, and the error of CornerOfOrigin's custom unmarshaler, are recorded without stopping; unknown members are ignored; member names are case sensitive; duplicate keys: last wins inside tile matrices / crs / wkt (Go maps), every occurrence is converted in order at the top level and in boundingBox (streaming) where null never overwrites",
+		"points (pointOfOrigin, boundingBox.lowerLeft / upperRight): TwoDPoint decodes itself (repair of F6c, /repo 909171c): exactly an array of two JSON numbers, anything else (other length, null, non-number element, non-array) is an error; in a tile matrix the error is recorded by the custom unmarshaler without stopping the population of the other members, in the bounding box it stops the streaming decoder",
+		"marshmallow: a wrong JSON type for a primitive / slice / array / struct member stops population with an error ; an invalid element inside a slice, and the error of CornerOfOrigin's custom unmarshaler, are recorded without stopping; unknown members are ignored; member names are case sensitive; duplicate keys: last wins inside tile matrices / crs / wkt (Go maps), every occurrence is converted in order at the top level and in boundingBox (streaming) where null never overwrites",
 		"[]string members: null elements become \"\"; `[]` gives an empty non-nil slice",
 		"validator v10.16.0: tags on unexported struct fields are NOT enforced (URICRS.uri/authority/code, WKTCRS.wkt -> ProjJSON required tags, ReferenceSystemCRS.referenceSystem); slices of structs without `dive` are not validated element-wise (VariableMatrixWidth tags never checked); required on numbers = non-zero, on pointers = non-nil; omitempty on a slice skips only nil; `uri` = strip '#...' then net/url.ParseRequestURI (modelled for the alphabet [A-Za-z0-9:/._#+-], control bytes rejected)",
 		"creasty/defaults: the structs carry no default tags, Set is a no-op",
